@@ -8,7 +8,7 @@
     ArchAsm.v), so a changed body has to be re-read (the differential run looks
     for an input meanwhile).  To accept a reviewed change, copy the new digest
     here. *)
-From Coq Require Import List String.
+From Coq Require Import ZArith List String.
 From WebpGen Require AsmAmd64.
 Import ListNotations.
 Open Scope string_scope.
@@ -68,4 +68,11 @@ Definition pinned_data_digest : string := "4a33599003dee710".
 
 Lemma asm_bodies_pinned :
   AsmAmd64.asm_digests = pinned_digests /\ AsmAmd64.asm_data_digest = pinned_data_digest.
+Proof. split; reflexivity. Qed.
+
+(** The arm64 routines are also emitted as instruction lists (mnemonic, raw
+    operands; no semantics yet): the list is complete. *)
+Lemma arm64_lists_emitted :
+  AsmAmd64.arm64_instruction_count = 924%Z /\
+  List.length AsmAmd64.arm64_iTransformOneNEON = 106%nat.
 Proof. split; reflexivity. Qed.
